@@ -1,6 +1,6 @@
 (* RoundtripP.v — C02 (what Display / AsRefStr / IntoStaticStr / ToString / get_serializations print parses
    back to the same variant) and C16 (use_phf: accepted whenever the plain derive is, keys pairwise distinct,
-   observationally equivalent under NonOverlap). *)
+   observationally equivalent on every input, with or without NonOverlap). *)
 Require Import Strum.Spec.Statements Strum.Proofs.BytesP Strum.Proofs.FromStrP Strum.Proofs.DisplayP
                Strum.Proofs.MiscP.
 From Coq Require Import Lia.
@@ -142,7 +142,8 @@ Qed.
 
 Lemma add_key_inv k tgt st : phf_inv st -> phf_inv (fs_add_key k tgt st).
 Proof.
-  intros [OK ND]. unfold fs_add_key. destruct (mem_str k (st_keys st)) eqn:M; [split; assumption|].
+  intros [OK ND]. unfold fs_add_key. destruct (shadowed k st); cbn [orb]; [split; assumption|].
+  destruct (mem_str k (st_keys st)) eqn:M; [split; assumption|].
   split.
   - intro k'. cbn [st_keys st_phf]. rewrite map_app, in_app_iff. cbn. rewrite <- (OK k'). tauto.
   - cbn [st_phf]. rewrite map_app. cbn [map fst]. apply NoDup_snoc; [exact ND|].
@@ -152,11 +153,14 @@ Qed.
 Lemma add_arm_inv a st : phf_inv st -> phf_inv (fs_add_arm a st).
 Proof. intros [OK ND]. split; [exact OK|exact ND]. Qed.
 
+Lemma add_ci_inv l st : phf_inv st -> phf_inv (fs_add_ci l st).
+Proof. intros [OK ND]. split; [exact OK|exact ND]. Qed.
+
 Lemma ser_inv u ci idx ps st lit : phf_inv st -> phf_inv (fs_serialization u ci idx ps st lit).
 Proof.
   intro H. unfold fs_serialization. destruct u; [|apply add_arm_inv; exact H].
   cbv zeta. destruct ci; [|apply add_key_inv; exact H].
-  apply add_arm_inv. apply add_key_inv. apply add_key_inv. apply add_key_inv. exact H.
+  apply add_arm_inv. apply add_ci_inv. apply add_key_inv. apply add_key_inv. apply add_key_inv. exact H.
 Qed.
 
 Lemma ser_fold_inv u ci idx ps lits : forall st, phf_inv st -> phf_inv (fold_left (fs_serialization u ci idx ps) lits st).
@@ -179,7 +183,7 @@ Qed.
 Lemma C16_keys_distinct_proof : stmt_C16_keys_distinct.
 Proof.
   unfold stmt_C16_keys_distinct. intros it c G.
-  destruct (gen_char it c G) as (tp & st0 & st & T & I & Sn & K0 & P0 & A0 & L & Ep & _).
+  destruct (gen_char it c G) as (tp & st0 & st & T & I & Sn & K0 & P0 & A0 & C0 & L & Ep & _).
   rewrite Ep. apply (fs_loop_inv tp _ _ _ _ L). split.
   - intro k. rewrite K0, P0. cbn. tauto.
   - rewrite P0. constructor.
@@ -315,24 +319,223 @@ Proof.
   destruct (mapM vprops_of (i_variants it)); [apply non_overlap_list_set_phf|reflexivity|reflexivity].
 Qed.
 
+(* without the use_phf item the flag is off *)
+Lemma td_step_phf p m q : td_step p m = Ok q -> tp_phf q = tp_phf p.
+Proof.
+  destruct m; cbn [td_step];
+    repeat match goal with |- context [if ?b then _ else _] => destruct b eqn:? end;
+    intro H; inversion H; reflexivity.
+Qed.
+
+Lemma foldM_td_phf : forall ds p q, foldM td_step p ds = Ok q -> tp_phf q = tp_phf p.
+Proof.
+  induction ds as [|m r IH]; intros p q H; cbn [foldM] in *.
+  - inversion H. reflexivity.
+  - apply bind_ok in H as (p1 & H1 & H). rewrite (IH _ _ H). exact (td_step_phf _ _ _ H1).
+Qed.
+
+Lemma tprops_phf_false it tp : has_phf it = false -> tprops_of it = Ok tp -> tp_phf tp = false.
+Proof.
+  unfold tprops_of, has_phf. intros HP H.
+  destruct (negb (forallb emeta_parse_ok (i_metas it))); [discriminate|].
+  apply bind_ok in H as (p & Hp & Hd).
+  pose proof (foldM_tp_phf _ _ _ Hp) as F. cbn [tp_init tp_phf orb] in F.
+  change (existsb is_phf (i_metas it)) with
+    (existsb (fun m => match m with EUsePhf => true | _ => false end) (i_metas it)) in F.
+  rewrite HP in F. rewrite (foldM_td_phf _ _ _ Hd). exact F.
+Qed.
+
+(* ---- the phf state against the arm list L of the plain `match` built from the same prefix ----
+   L : the plain arms emitted so far; P : plain arms whose keys are being offered (not yet in L).  *)
+Definition is_guard (a : fs_arm) : bool := match a with ArmGuard _ _ _ => true | ArmExact _ _ _ => false end.
+Definition arm_lit (a : fs_arm) : str := match a with ArmExact l _ _ | ArmGuard l _ _ => l end.
+
+Record sim (L P : list fs_arm) (st : fs_state) : Prop := {
+  (* the phf match keeps exactly the guard arms, in order *)
+  s_arms : st_arms st = filter is_guard L;
+  s_ci : st_ci st = map arm_lit (filter is_guard L);
+  (* the map answers a key as the plain match does *)
+  s_sound : forall k tgt, In (k, tgt) (st_phf st) ->
+            exists a, find (arm_matches k) (L ++ P) = Some a /\ arm_target a = tgt;
+  (* an input whose first plain match is an exact arm is a key *)
+  s_compl : forall s a, find (arm_matches s) L = Some a -> is_guard a = false -> In s (st_keys st);
+  s_keys : keys_ok st
+}.
+
+Lemma find_filter {A} (f g : A -> bool) : forall l,
+  (forall a, find f l = Some a -> g a = true) -> find f (filter g l) = find f l.
+Proof.
+  induction l as [|x r IH]; intro H; cbn [filter find]; [reflexivity|].
+  cbn [find] in H. destruct (f x) eqn:Fx.
+  - rewrite (H x eq_refl). cbn [find]. rewrite Fx. reflexivity.
+  - destruct (g x); cbn [find]; rewrite ?Fx; apply IH; exact H.
+Qed.
+
+Lemma shadowed_find L P st k : sim L P st -> shadowed k st = true ->
+  exists a, find (arm_matches k) L = Some a.
+Proof.
+  intros Sm H. unfold shadowed in H. apply existsb_exists in H as (c & Hc & M).
+  rewrite (s_ci _ _ _ Sm) in Hc. apply in_map_iff in Hc as (a & <- & Ha). apply filter_In in Ha as [Ha G].
+  destruct (find (arm_matches k) L) as [b|] eqn:F; [eauto|].
+  exfalso. pose proof (find_none _ _ F a Ha) as N. destruct a as [l j ps|l j ps]; [discriminate|].
+  cbn [arm_matches arm_lit] in *. rewrite eq_ic_str_sym in N. congruence.
+Qed.
+
+Lemma fresh_find L P st k : sim L P st -> shadowed k st = false -> mem_str k (st_keys st) = false ->
+  find (arm_matches k) L = None.
+Proof.
+  intros Sm Sh M. destruct (find (arm_matches k) L) as [a|] eqn:F; [exfalso|reflexivity].
+  destruct (is_guard a) eqn:G.
+  - apply find_some in F as [Ia Ma]. destruct a as [l j ps|l j ps]; [discriminate|]. cbn [arm_matches] in Ma.
+    assert (X : shadowed k st = true); [|congruence].
+    unfold shadowed. apply existsb_exists. exists l. split; [|rewrite eq_ic_str_sym; exact Ma].
+    rewrite (s_ci _ _ _ Sm). apply in_map_iff. exists (ArmGuard l j ps). split; [reflexivity|].
+    apply filter_In. split; [exact Ia|reflexivity].
+  - pose proof (s_compl _ _ _ Sm k a F G) as I. apply mem_str_In in I. congruence.
+Qed.
+
+Lemma add_key_sim L P st k tgt a0 : find (arm_matches k) P = Some a0 -> arm_target a0 = tgt ->
+  sim L P st -> sim L P (fs_add_key k tgt st).
+Proof.
+  intros FP TP Sm. unfold fs_add_key. destruct (shadowed k st) eqn:Sh; cbn [orb]; [exact Sm|].
+  destruct (mem_str k (st_keys st)) eqn:M; [exact Sm|].
+  pose proof Sm as [SA SC SS SK SO]. constructor; cbn [st_arms st_ci st_phf st_keys].
+  - exact SA.
+  - exact SC.
+  - intros k' t' H. apply in_app_iff in H as [H|[H|[]]]; [exact (SS _ _ H)|]. inversion H; subst k' t'.
+    exists a0. split; [|exact TP]. rewrite find_app_none; [exact FP|].
+    exact (fresh_find L P st k Sm Sh M).
+  - intros s a F G. right. exact (SK s a F G).
+  - intro k'. cbn [st_keys st_phf]. rewrite map_app, in_app_iff. cbn. rewrite <- (SO k'). tauto.
+Qed.
+
+Lemma sim_pend L P st : sim L [] st -> sim L P st.
+Proof.
+  intros [SA SC SS SK SO]. constructor; auto. intros k t H. destruct (SS k t H) as (a & F & T).
+  exists a. split; [|exact T]. rewrite app_nil_r in F. apply find_app_some. exact F.
+Qed.
+
+Lemma commit_exact L st lit idx ps : sim L [ArmExact lit idx ps] st -> covered lit st ->
+  sim (L ++ [ArmExact lit idx ps]) [] st.
+Proof.
+  intros Sm C. pose proof Sm as [SA SC SS SK SO]. constructor; auto.
+  - rewrite filter_app. cbn [filter is_guard]. rewrite app_nil_r. exact SA.
+  - rewrite filter_app. cbn [filter is_guard]. rewrite app_nil_r. exact SC.
+  - intros k t H. rewrite app_nil_r. exact (SS k t H).
+  - intros s a F G. destruct (find (arm_matches s) L) as [b|] eqn:FL.
+    + rewrite (find_app_some _ _ _ _ FL) in F. inversion F; subst b. exact (SK s a FL G).
+    + rewrite (find_app_none _ _ _ FL) in F. cbn [find arm_matches] in F.
+      destruct (str_eqb s lit) eqn:E; [|discriminate].
+      apply str_eqb_spec in E. subst s. destruct C as [C|C]; [exact C|].
+      destruct (shadowed_find _ _ _ _ Sm C) as (b & Fb). congruence.
+Qed.
+
+Lemma commit_guard L st lit idx ps : sim L [ArmGuard lit idx ps] st ->
+  sim (L ++ [ArmGuard lit idx ps]) [] (fs_add_arm (ArmGuard lit idx ps) (fs_add_ci lit st)).
+Proof.
+  intros [SA SC SS SK SO]. unfold fs_add_arm, fs_add_ci. constructor; cbn [st_arms st_ci st_phf st_keys].
+  - rewrite filter_app. cbn [filter is_guard]. rewrite SA. reflexivity.
+  - rewrite filter_app, map_app. cbn [filter is_guard map arm_lit]. rewrite SC. reflexivity.
+  - intros k t H. rewrite app_nil_r. exact (SS k t H).
+  - intros s a F G. destruct (find (arm_matches s) L) as [b|] eqn:FL.
+    + rewrite (find_app_some _ _ _ _ FL) in F. inversion F; subst b. exact (SK s a FL G).
+    + rewrite (find_app_none _ _ _ FL) in F. cbn [find] in F.
+      destruct (arm_matches s (ArmGuard lit idx ps)); [|discriminate]. inversion F; subst a. discriminate.
+  - exact SO.
+Qed.
+
+Lemma ser_sim L ci idx ps st lit : sim L [] st ->
+  sim (L ++ arm_of false ci idx ps lit) [] (fs_serialization true ci idx ps st lit).
+Proof.
+  intro Sm. unfold fs_serialization, arm_of. destruct ci; cbv beta iota zeta.
+  - apply commit_guard.
+    apply (add_key_sim _ _ _ _ _ (ArmGuard lit idx ps));
+      [cbn [find arm_matches]; rewrite eq_ic_upper_str; reflexivity|reflexivity|].
+    apply (add_key_sim _ _ _ _ _ (ArmGuard lit idx ps));
+      [cbn [find arm_matches]; rewrite eq_ic_lower_str; reflexivity|reflexivity|].
+    apply (add_key_sim _ _ _ _ _ (ArmGuard lit idx ps));
+      [cbn [find arm_matches]; rewrite eq_ic_str_refl; reflexivity|reflexivity|].
+    apply sim_pend. exact Sm.
+  - apply commit_exact.
+    + apply (add_key_sim _ _ _ _ _ (ArmExact lit idx ps));
+        [cbn [find arm_matches]; rewrite str_eqb_refl; reflexivity|reflexivity|].
+      apply sim_pend. exact Sm.
+    + apply add_key_props.
+Qed.
+
+Lemma ser_fold_sim ci idx ps lits : forall L st, sim L [] st ->
+  sim (L ++ arms_of false ci idx ps lits) [] (fold_left (fs_serialization true ci idx ps) lits st).
+Proof.
+  induction lits as [|lit r IH]; intros L st Sm; cbn [fold_left]; unfold arms_of; cbn [flat_map].
+  - rewrite app_nil_r. exact Sm.
+  - rewrite app_assoc. apply IH. apply ser_sim. exact Sm.
+Qed.
+
+Lemma sim_same L P st st' :
+  st_arms st' = st_arms st -> st_ci st' = st_ci st -> st_phf st' = st_phf st -> st_keys st' = st_keys st ->
+  sim L P st -> sim L P st'.
+Proof.
+  intros A C Ph K [SA SC SS SK SO].
+  constructor; [congruence|congruence|rewrite Ph; exact SS|rewrite K; exact SK|].
+  intro k. rewrite K, Ph. apply SO.
+Qed.
+
+(* the variant loop with use_phf, against the arms the plain loop emits for the same variants *)
+Lemma loop_sim tp : tp_phf tp = false -> forall vs L st idx st', sim L [] st ->
+  fs_loop (set_phf tp) st idx vs = Ok st' -> sim (L ++ all_arms tp idx vs) [] st'.
+Proof.
+  intros U. induction vs as [|v r IH]; intros L st idx st' Sm H; cbn [fs_loop all_arms] in *.
+  - inversion H; subst. rewrite app_nil_r. exact Sm.
+  - unfold bind in H. destruct (fs_variant (set_phf tp) st idx v) as [st1| |] eqn:Hv; try discriminate.
+    rewrite app_assoc. apply (IH _ st1 (S idx) st'); [|exact H].
+    destruct (fs_variant_shape _ _ _ _ _ Hv) as (p & Hp & [(D & ->) | [(D & Df & Sn & sg & SF & ->) | (El & ps & P & ->)]]);
+      unfold varms; rewrite Hp.
+    + unfold eligible_b. rewrite D. cbn [negb andb]. rewrite app_nil_r. exact Sm.
+    + unfold eligible_b. rewrite D, Df. cbn [negb andb]. rewrite app_nil_r.
+      apply (sim_same L [] st); try reflexivity. exact Sm.
+    + rewrite El, P, U.
+      exact (ser_fold_sim (vci tp p) idx ps (vspell tp p) L st Sm).
+Qed.
+
+(* at full strength: every input, no NonOverlap *)
+Lemma C16_equiv_all_proof : stmt_C16_equiv_all.
+Proof.
+  unfold stmt_C16_equiv_all. intros it c c' HP G G' s.
+  destruct (gen_char it c G) as (tp & _ & _ & T & _).
+  pose proof (tprops_phf_false it tp HP T) as U.
+  pose proof (tprops_with_phf it tp HP T) as T'.
+  pose proof (gen_facts_of it c tp G T) as [FA FP _ _ FF _].
+  pose proof (gen_facts_of (with_phf it) c' (set_phf tp) G' T') as [_ _ _ _ FF' _].
+  destruct (gen_char (with_phf it) c' G') as (tp2 & st0 & st & T2 & _ & _ & K0 & P0 & A0 & C0 & L & Ep & Ea & _).
+  rewrite T' in T2. inversion T2; subst tp2. clear T2.
+  cbn [with_phf i_variants] in L.
+  assert (S0 : sim [] [] st0).
+  { constructor.
+    - rewrite A0. reflexivity.
+    - rewrite C0. reflexivity.
+    - intros k t H. rewrite P0 in H. destruct H.
+    - intros s0 a F. discriminate.
+    - intro k. rewrite K0, P0. cbn. tauto. }
+  pose proof (loop_sim tp U _ _ _ _ _ S0 L) as Sm. cbn [app] in Sm.
+  assert (Hfall : fs_fall c' = fs_fall c).
+  { assert (X : (fs_fall c', fs_custom_err c') = (fs_fall c, fs_custom_err c)) by (rewrite FF; exact FF').
+    injection X as X1 X2. exact X1. }
+  assert (Hphf : assoc_key s (fs_phf c) = None).
+  { destruct (assoc_key s (fs_phf c)) as [[j qs]|] eqn:A; [|reflexivity].
+    apply assoc_key_some in A. destruct (FP _ _ _ A) as (U' & _). congruence. }
+  unfold run_from_str. rewrite Hphf, FA, Ep, Ea, Hfall, (s_arms _ _ _ Sm).
+  destruct (assoc_key s (st_phf st)) as [[j qs]|] eqn:A.
+  - apply assoc_key_some in A. destruct (s_sound _ _ _ Sm _ _ A) as (a & F & Ta).
+    rewrite app_nil_r in F. rewrite F, Ta. reflexivity.
+  - rewrite find_filter; [reflexivity|]. intros a F. destruct (is_guard a) eqn:Gd; [reflexivity|exfalso].
+    pose proof (s_compl _ _ _ Sm s a F Gd) as I. apply (s_keys _ _ _ Sm) in I.
+    exact (assoc_key_none _ _ A I).
+Qed.
+
 Lemma C16_equiv_proof : stmt_C16_equiv.
 Proof.
-  unfold stmt_C16_equiv. intros it c c' HP NO G G' s.
-  destruct (gen_char it c G) as (tp & _ & _ & T & _).
-  pose proof (tprops_with_phf it tp HP T) as T'.
-  assert (NO' : non_overlap_b (with_phf it) = true) by (rewrite (non_overlap_with_phf it tp HP T); exact NO).
-  assert (D : (exists i ps, run_from_str c s = OVariant i ps) \/ (forall i ps, run_from_str c s <> OVariant i ps)).
-  { destruct (run_from_str c s); [left; eauto|right; discriminate..]. }
-  destruct D as [(i & ps & R) | NV].
-  - rewrite R. destruct (run_sound it c tp s i ps G T R) as [(v & p & Hv & El & Mt & P) _].
-    apply (C01_sound_complete_proof (with_phf it) c' (set_phf tp) G' T' NO' s i ps).
-    exists v, p. split; [exact Hv|]. split; [exact El|]. split; [exact Mt|exact P].
-  - assert (NM : forall i v p, variant_at it i v p -> eligible_b p && matches_b tp p s = false).
-    { intros i v p Hv. destruct (eligible_b p && matches_b tp p s) eqn:E; [|reflexivity].
-      apply andb_true_iff in E as [El Mt].
-      destruct (run_complete it c tp s i v p G T Hv El Mt) as (j & ps & R). exfalso. exact (NV j ps R). }
-    rewrite (run_fallthrough it c tp s G T NM).
-    rewrite (run_fallthrough (with_phf it) c' (set_phf tp) s G' T' NM). reflexivity.
+  unfold stmt_C16_equiv. intros it c c' HP _ G G' s.
+  exact (C16_equiv_all_proof it c c' HP G G' s).
 Qed.
 
 Print Assumptions C02_roundtrip_display_proof.
@@ -343,3 +546,4 @@ Print Assumptions C02_serializations_proof.
 Print Assumptions C16_accepts_proof.
 Print Assumptions C16_keys_distinct_proof.
 Print Assumptions C16_equiv_proof.
+Print Assumptions C16_equiv_all_proof.
